@@ -463,7 +463,7 @@ impl Op {
                 _ => out.push(ch),
             }
         }
-        out.trim_end_matches('.').to_string()
+        out.trim_end_matches(|c| c == '.' || c == ')').to_string()
     }
 
     /// closures are flattened in the model: `apply(|q| { a; b })` == `a; b`
